@@ -15,7 +15,10 @@ import sys
 
 from sim import core
 
-GEN_DIR = os.path.join(core.VERIF, '.cache', 'gen19')
+def gen_dir() -> str:
+    """Scratch directory for generated sources: one per invocation (set by the check's main and
+    removed when it exits; a generated program is a pure function of its seed, so nothing is lost)."""
+    return os.environ.get('VERIF_GEN19_DIR') or os.path.join(core.VERIF, '.cache', 'gen19')
 
 CTXS = ['fp.FP16', 'fp.FP32', 'fp.REAL', 'fp.MPFixedContext(-8)', 'fp.FixedContext(True, -8, 32)',
         'fp.MPFixedContext(-4, enable_nan=True, enable_inf=True)', 'fp.FP64']
@@ -124,9 +127,10 @@ def load(seed: int):
     """The generated function for `seed`, or None when the front end rejects the program."""
     if seed in _LOADED:
         return _LOADED[seed]
-    os.makedirs(GEN_DIR, exist_ok=True)
+    d = gen_dir()
+    os.makedirs(d, exist_ok=True)
     name = f'c19gen_{seed:016x}'
-    path = os.path.join(GEN_DIR, name + '.py')
+    path = os.path.join(d, name + '.py')
     src = source(seed)
     try:
         if not os.path.exists(path) or open(path).read() != src:
